@@ -21,52 +21,47 @@ for f in sorted(glob.glob('/verif/seeded/C*/meta.json')):
 txt = """
 ### 12.6 Seeded changes and which check catches them
 
-Six rounds of fresh sub-agents: m1/m2 against the tree with only the hooks; then, against the tree with the repairs
-made so far, m3/m4 (20 properties), two more for 14 properties, and three times two more for all 20 (10 or 12 changes
-per property, 228 in all). From the second round on the agents were told one-line summaries of the changes already known
-for the property and asked for other sites, mechanisms and clauses (in the last two rounds also: other entry points,
-fast paths, rarely used options, boundary sizes, error paths, state kept between calls, caches, Python / CLI layers).
-Each agent saw only the property text and its own scratch worktree, never /verif. Every change was confirmed there
-before it was kept (`seeded/_confirm/*.log`: repository suite 255 passed / 0 failed with the change, demonstration fails
-with it and passes without it; demonstrations that are scripts rather than Rust tests were run by hand). Seven m1/m2
-patches had to be re-applied by hand after repairs touched the same lines (`patch.orig.diff` is kept next to
-`patch.diff`).
+Seven rounds of fresh sub-agents: m1/m2 against the tree with only the hooks; then, against the tree with the repairs
+made so far, m3/m4 (20 properties), two more for 14 properties, three times two more for all 20, and finally three more
+for all 20 (13 or 15 changes per property, 288 in all). From the second round on the agents were told one-line summaries
+of the changes already known for the property and asked for other sites, mechanisms and clauses (in the last rounds also:
+other entry points, fast paths, rarely used options, boundary sizes, error paths, state kept between calls, caches,
+Python / CLI layers, the last element of structures). Each agent saw only the property text and its own scratch worktree,
+never /verif. Every change was confirmed there before it was kept (`seeded/_confirm/*.log`: repository suite 255 passed /
+0 failed with the change, demonstration fails with it and passes without it; demonstrations that are scripts rather than
+Rust tests were run by hand). Seven m1/m2 patches had to be re-applied by hand after repairs touched the same lines
+(`patch.orig.diff` is kept next to `patch.diff`).
 
-The last three rounds are the most informative ones about reach. 18 of the 40 changes of the fourth round and 11 of the
-40 of the fifth were missed at the first attempt, each because the workload never drove the code concerned: no input
-beyond the size limits in C01, no debug-mode tokenizer and no input-deleting configuration in C03, no double array
-above 2^20 units, no key with more than 127 entries in C04, no command-line / Python build in C05, a constant
-description in C06, no split-result offsets in C08, no path-rewrite plugins and no non-empty output list in C09,
-per-token evaluation of malformed numerals in C15, no user dictionaries in C16, no path-based loader in C17, at most 16
-threads in C18, no projection check on split results and no carriage return inside a line in C19, no cost check after
-path rewriting in C02 (fourth round); no sparse matrix text in C05, no analysis between field request and mode change in
-C09, no field subset and no file-based load in C12, a unit after the point called "unspecified" in C15, range ends at
-U+D7FF / U+10FFFF avoided in C17, no dictionary with thousands of dictionary forms and silently dying Python threads in
-C18, no mode override on a tokenizer with a field request in C19, Python-only changes invisible to the Rust-level
-monitors of C04 and C10 (fifth round). In the sixth round the descriptions were read before the first run and 14 gaps of
-the same kind were closed right away (see the notes "Extended after reading the description"); of the rest, three were
-missed at the first attempt: C03-m12 (no stack of 15 user dictionaries with high word numbers), C11-m10 (Python-only) and
-C20-m10 - the latter because of a defect of the harness itself: each worker listed only its first 40 violation records
-and records labelled as known finding D1 filled that list. Labelled and unlabelled records now have separate quotas.
-The workloads were extended each time (see the `notes` of each `seeded/<id>/meta.json`). Side remarks of the agents
-about the unchanged tree led to defects D25 - D30 of 12.3. A monitor only decides what its workload reaches: the same
-will be true for changes nobody has seeded yet.
+**What these rounds say about reach.** The share of new changes that the checks missed at the first attempt did not go
+down as the monitors grew: 18 of 40 (round four), 11 of 40 (round five), about 17 of 40 (round six: 3 missed, 14 gaps
+closed after reading the descriptions but before the first run), 24 of 60 (round seven, first run made before any
+extension). Each miss had the same cause: the workload did not drive the code concerned - another entry point (command
+line, Python binding, `ConfigBuilder`, file-based loading, the stateless tokenizer, the older split API, a named pipe),
+a rarely used option (debug mode, `enableNormalize: false`, reversed plugin order, no fallback provider, projections with
+a handler), a size nobody generated (exactly 65,535 characters, 15 user dictionaries, 256 homographs, 2^20 trie units,
+1,024 dictionary forms, 33 threads), or an API sequence (resolve, then read more rows; a second `read_conn`; analysing
+into a list that was the target of a split). The workloads were extended every time (see the `notes` of each
+`seeded/<id>/meta.json`) and all of these are detected now, but the honest expectation for a change nobody has seeded yet
+is a detection rate of roughly 60 %, not 98 %. One miss of round six was a defect of the harness itself: each worker listed
+only its first 40 violation records and records labelled as known finding D1 filled that list (labelled and unlabelled
+records now have separate quotas). Side remarks of the agents about the unchanged tree led to defects D25 - D30 of 12.3.
 
 Result of the sweeps (`lib/sweep_seeded.sh` applies to /repo and reverts; `lib/sweep_alt.sh` uses a scratch worktree
 through `VERIF_REPO`, so that long runs against /repo are not disturbed): **%d of %d are detected by the quick check of
-the property they were written for.** The other five:
+the property they were written for.** The other six:
 
 * C03-m2 and C10-m1 - the same dropped `clear()`; harmless since repair 36f4a80 (detected before that repair).
 * C11-m9 - a derived `Default` for the field request; harmless since repair ad6f17a (its demonstration passes with the
   change on the repaired tree).
-* C15-m4 - a decimal point directly after a unit (`1万.5` joined as 10000.5): the statement does not say that this shape
-  is malformed and 10000.5 is its natural value, so the evaluator calls it "unspecified" instead of demanding more than
-  the property states.
+* C15-m4 - a decimal point directly after a unit (`1万.5` joined as 10000.5), and C15-m11 - a decimal coefficient of a unit
+  inside a later group (`1万1.5千`): the statement does not define these shapes, so the evaluator calls them "unspecified"
+  instead of demanding more than the property states.
 * C12-m6 - the compiler accepts a reference one past the last word; C12 generates only valid references; detected by
   `./check C06`.
 
-Python-only changes are detected by the property's own check since the Rust-level monitors of C04, C09, C10, C11, C12
-and C18 have a stage that runs the Python driver and keeps the mismatch kinds that speak about that property.
+Changes in python/src or sudachi-cli/src are detected by the property's own check since the Rust-level monitors of C01,
+C03, C04, C08, C09, C10, C11, C12 and C18 have a stage that runs C19's driver and keeps the mismatch kinds that speak
+about that property.
 
 Monitors that were strengthened because a seeded change was missed or inconclusive at first: C01 (compounds whose last
 unit is longer than declared; accessor / split panics count; marks that an earlier plugin resizes), C18 (twin load as
